@@ -5,6 +5,9 @@ package mux
 import (
 	"fmt"
 	"testing"
+	"time"
+
+	"verif/internal/vr"
 )
 
 func TestDbgR2(t *testing.T) {
@@ -15,6 +18,10 @@ func TestDbgR2(t *testing.T) {
 		}
 	}
 	target := []Event{{K: "write", S: 0, ID: 1, N: 2}, {K: "deliver", S: 0}, {K: "write", S: 1, ID: 1, N: 1}, {K: "write", S: 1, ID: 1, N: 1}, {K: "read", S: 1, ID: 1, N: 2}, {K: "closeWrite", S: 1, ID: 1}, {K: "deliver", S: 1}, {K: "deliver", S: 1}, {K: "deliver", S: 1}, {K: "write", S: 0, ID: 1, N: 2}}
+	dbgSeen = map[[20]byte]string{}
+	r := vr.New(t, "C23", "model_checking")
+	st, fs := explore(t, r, cfg, "C23", time.Now().Add(time.Hour))
+	fmt.Printf("prefix stats %+v found %d\n", st, len(fs))
 	for i := 0; i <= len(target); i++ {
 		ev := append(append([]Event{}, cfg.Preamble...), target[:i]...)
 		res := execute(t, cfg, ev, true, nil)
@@ -26,6 +33,7 @@ func TestDbgR2(t *testing.T) {
 				}
 			}
 		}
+		fmt.Printf("prefix seen-as %q\n", dbgSeen[res.Hash])
 		fmt.Printf("prefix %d ok=%v terminal=%v viol=%d nextInMenu=%v menu=%v\n", i, res.OK, res.Terminal, len(res.Viol), inMenu, res.Menu)
 	}
 }
